@@ -11,7 +11,7 @@ import semcheck
 
 
 def oracle_cases(ctx, flags_list, relation, n_corpus, n_mut, origins=None, n_inst=4, facts_over="in", outp="auto",
-                 extra_programs=(), one_to_one=True, inp="auto", decl_mix=False):
+                 extra_programs=(), one_to_one=True, inp="auto", decl_mix=False, n_hand=None):
     rng = ctx.rng
     if decl_mix:
         # declarations vary per case: ngo's own detection, detected inputs plus some derived predicates, random outputs
@@ -40,14 +40,18 @@ def oracle_cases(ctx, flags_list, relation, n_corpus, n_mut, origins=None, n_ins
     chosen = chosen[:n_corpus]
     if len(chosen) < n_corpus and rest:
         chosen += rng.sample(rest, min(len(rest), n_corpus - len(chosen)))
-    for text in extra_programs:
-        chosen.append(("extra", text))
+    # the first `n_hand` extra programs are the hand-written ones of the property module: they get five cases (two when
+    # several flag vectors are run) of 14 instances each; generator programs and programs handed over by a correspondence get one case of 14 instances
+    for i, text in enumerate(extra_programs):
+        chosen.append(("hand" if n_hand is None or i < n_hand else "extra", text))
     for origin, text in chosen:
         for flags in flags_list:
-            k += 1
-            cases.append(dict(program=text, inp=pick(inp, k), outp=pick(outp, k), flags=flags, relation=relation, seed=ctx.seed * 1000003 + k,
-                              n_inst=(14 if origin == "extra" else n_inst), facts_over=facts_over, label=f"corpus:{origin}",
-                              one_to_one=one_to_one))
+            # the hand-written and targeted programs get more instances: two cases with 14 instances each
+            for _ in range((5 if len(flags_list) == 1 else 2) if origin == "hand" else 1):
+                k += 1
+                cases.append(dict(program=text, inp=pick(inp, k), outp=pick(outp, k), flags=flags, relation=relation,
+                                  seed=ctx.seed * 1000003 + k, n_inst=(14 if origin in ("extra", "hand") else n_inst), facts_over=facts_over,
+                                  label=f"corpus:{origin}", one_to_one=one_to_one))
     pool = pref or H
     for j in range(n_mut):
         base = rng.choice(pool)[1]
